@@ -14,6 +14,7 @@ import (
 	"sort"
 	"strconv"
 	"strings"
+	"sync"
 	"testing"
 	"unicode/utf8"
 
@@ -33,6 +34,8 @@ type verifTok struct {
 	maxRunes int  // longest vocabulary entry, in runes
 	pre      string // BPE: pre-tokenizer pattern
 	pool     []string        // random vocabularies: strings the texts are built from
+	specials []string        // SpecialVocabulary() of the TEMPLATE object, taken before any Encode call (pristine)
+	template bool            // templates are never used for Encode/Decode: every history runs on a clone
 	byteIDs  map[int32]uint32 // SPM: id of a byte token -> its token type
 	covering bool // every (remapped) byte is a token
 }
@@ -389,7 +392,7 @@ func verifRandBPE(enc [256]int, pre string, idx int, out *zzverif.Out) *verifTok
 			whole = append(whole, p)
 		}
 	}
-	return &verifTok{name: fmt.Sprintf("rbpe%d", idx), family: "bpe", tp: bpe, bpe: &bpe, vocab: v, maxRunes: verifMaxRunes(v), covering: covering, pre: pre, pool: whole}
+	return (&verifTok{name: fmt.Sprintf("rbpe%d", idx), family: "bpe", tp: bpe, bpe: &bpe, vocab: v, maxRunes: verifMaxRunes(v), covering: covering, pre: pre, pool: whole}).asTemplate()
 }
 
 var verifTypeNames = map[uint32]string{TOKEN_TYPE_NORMAL: "normal", TOKEN_TYPE_UNKNOWN: "unknown", TOKEN_TYPE_CONTROL: "control",
@@ -457,7 +460,7 @@ func verifRandSPM(idx int, out *zzverif.Out) *verifTok {
 	}
 	spm := NewSentencePieceModel(v)
 	// the round-trip theorem's vocabulary hypotheses: all 256 byte tokens and the piece "▁"
-	return &verifTok{name: fmt.Sprintf("rspm%d", idx), family: "spm", tp: spm, vocab: v, maxRunes: verifMaxRunes(v), covering: allBytes && hasSep, pool: pool, byteIDs: byteIDs}
+	return (&verifTok{name: fmt.Sprintf("rspm%d", idx), family: "spm", tp: spm, vocab: v, maxRunes: verifMaxRunes(v), covering: allBytes && hasSep, pool: pool, byteIDs: byteIDs}).asTemplate()
 }
 
 // verifRandTok builds the random vocabulary a name denotes ("rbpe<idx>" / "rspm<idx>").
@@ -485,7 +488,7 @@ func verifPoolSegs(r *zzverif.Rng, tk *verifTok, out *zzverif.Out) []verifSeg {
 		segs = append(segs, verifSeg{s, false})
 		out.Count("seg_vocab_pool")
 		if r.Chance(1, 8) {
-			for _, sp := range tk.vocab.SpecialVocabulary() {
+			for _, sp := range tk.specials {
 				if strings.HasPrefix(sp, "<") && !strings.HasPrefix(sp, "<0x") && r.Chance(1, 3) {
 					segs = append(segs, verifSeg{sp, true})
 					out.Count("seg_special")
@@ -551,6 +554,7 @@ func verifTokenizers(t testing.TB, enc [256]int) []*verifTok {
 	pb := NewBytePairEncoding(`(?s).`, verifProbeVocab())
 	out = append(out, &verifTok{name: "probe", family: "bpe", tp: pb, bpe: &pb, vocab: pb.vocab, maxRunes: 12, covering: true, pre: `(?s).`})
 	for _, tk := range out {
+		tk.asTemplate()
 		for i, s := range tk.vocab.Values {
 			if !utf8.ValidString(s) || s == "" {
 				t.Fatalf("%s: vocabulary entry %d is empty or not valid UTF-8", tk.name, i)
@@ -594,17 +598,22 @@ func verifB(b bool) string {
 	return "0"
 }
 
-// verifTextFragments: the text fragments left after cutting out every special literal (reference
-// re-implementation used ONLY to know on which strings to run the real pre-tokenizer; the oracle does
-// its own splitting and answers err:nosplit if it needs a fragment that is not listed).
-func verifTextFragments(specials []string, s string) []string {
-	type fr struct {
-		v  string
-		sp bool
-	}
-	frs := []fr{{s, false}}
+// verifFragments: the text cut at every special literal (reference re-implementation: specials in
+// SpecialVocabulary order, leftmost occurrence first).  Used to know on which strings to run the real
+// pre-tokenizer (the oracle does its own splitting and answers err:nosplit if it needs a fragment that is not
+// listed) and for the compositional special-literal predicate of L2.
+type verifFrag struct {
+	v  string
+	sp bool
+}
+
+func verifFragments(specials []string, s string) []verifFrag {
+	frs := []verifFrag{{s, false}}
 	for _, sp := range specials {
-		var next []fr
+		if !strings.Contains(s, sp) {
+			continue
+		}
+		var next []verifFrag
 		for _, f := range frs {
 			if f.sp {
 				next = append(next, f)
@@ -614,13 +623,13 @@ func verifTextFragments(specials []string, s string) []string {
 			for {
 				i := strings.Index(v, sp)
 				if i < 0 {
-					next = append(next, fr{v, false})
+					next = append(next, verifFrag{v, false})
 					break
 				}
 				if i > 0 {
-					next = append(next, fr{v[:i], false})
+					next = append(next, verifFrag{v[:i], false})
 				}
-				next = append(next, fr{sp, true})
+				next = append(next, verifFrag{sp, true})
 				v = v[i+len(sp):]
 				if v == "" {
 					break
@@ -629,8 +638,12 @@ func verifTextFragments(specials []string, s string) []string {
 		}
 		frs = next
 	}
+	return frs
+}
+
+func verifTextFragments(specials []string, s string) []string {
 	var out []string
-	for _, f := range frs {
+	for _, f := range verifFragments(specials, s) {
 		if !f.sp {
 			out = append(out, f.v)
 		}
@@ -644,6 +657,38 @@ func verifScoreKey(f float32) int64 {
 		return int64(b)
 	}
 	return -int64(b & 0x7fffffff)
+}
+
+// clone: a FRESH tokenizer object over the same vocabulary data (every history runs on its own object, so a
+// case line replays).  share: reuse the template's two lookup maps (llama 3.2: 128k + 280k entries; they are
+// built once from Values / Merges and only read afterwards) — the special-token cache is always fresh.
+func (tk *verifTok) clone(share bool) *verifTok {
+	v := tk.vocab
+	nv := &Vocabulary{Values: v.Values, Types: v.Types, Scores: v.Scores, Merges: v.Merges, BOS: v.BOS, EOS: v.EOS, EOT: v.EOT,
+		AddBOS: v.AddBOS, AddEOS: v.AddEOS, AddEOT: v.AddEOT}
+	if share {
+		v.Encode("")
+		v.Merge("", "")
+		nv.values, nv.merge = v.values, v.merge
+		nv.valuesOnce.Do(func() {})
+		nv.mergeOnce.Do(func() {})
+	}
+	c := *tk
+	c.vocab, c.template = nv, false
+	if tk.family == "bpe" {
+		b := NewBytePairEncoding(tk.pre, nv)
+		c.tp, c.bpe = b, &b
+	} else {
+		c.tp = NewSentencePieceModel(nv)
+	}
+	return &c
+}
+
+// finish a template: snapshot its special vocabulary (the template itself never encodes anything)
+func (tk *verifTok) asTemplate() *verifTok {
+	tk.specials = append([]string(nil), tk.vocab.SpecialVocabulary()...)
+	tk.template = true
+	return tk
 }
 
 func (tk *verifTok) addCfg(add bool) string {
@@ -679,7 +724,7 @@ func (tk *verifTok) opBPE(enc [256]int, text string, add bool, out *zzverif.Out)
 	var sb strings.Builder
 	fmt.Fprintf(&sb, "bpe %s %s", tk.addCfg(add), zzverif.Hex([]byte(text)))
 	var sps, lits []string
-	for _, sp := range v.SpecialVocabulary() {
+	for _, sp := range tk.specials {
 		if strings.Contains(text, sp) {
 			sps = append(sps, fmt.Sprintf("%s %s %d", zzverif.Hex([]byte(sp)), verifRunes(sp), v.Encode(sp)))
 			lits = append(lits, sp)
@@ -701,10 +746,10 @@ func (tk *verifTok) opBPE(enc [256]int, text string, add bool, out *zzverif.Out)
 		}
 		seen[f] = true
 		var pieces []string
-		cat := ""
+		var catb strings.Builder
 		for p := range tk.bpe.split(f) {
 			pieces = append(pieces, zzverif.Hex([]byte(p)))
-			cat += p
+			catb.WriteString(p)
 			// vocabulary / merge entries relevant to this piece
 			var m []rune
 			for _, b := range []byte(p) {
@@ -745,7 +790,7 @@ func (tk *verifTok) opBPE(enc [256]int, text string, add bool, out *zzverif.Out)
 				}
 			}
 		}
-		if cat != f {
+		if cat := catb.String(); cat != f {
 			out.Count("split_not_partition")
 			out.L2("split-partition", tk.caseLine(text, add), fmt.Sprintf("fragment %q is split into %q", f, cat))
 		}
@@ -790,7 +835,7 @@ func (tk *verifTok) opSPM(text string, add bool, out *zzverif.Out) string {
 	var sb strings.Builder
 	fmt.Fprintf(&sb, "spm %s %s", tk.addCfg(add), verifRunes(text))
 	var sps []string
-	for _, sp := range v.SpecialVocabulary() {
+	for _, sp := range tk.specials {
 		if strings.Contains(text, sp) {
 			sps = append(sps, fmt.Sprintf("%s %d", verifRunes(sp), v.Encode(sp)))
 		}
@@ -846,7 +891,7 @@ func (tk *verifTok) diffClass(text, dec string) string {
 		if strings.ReplaceAll(text, "~", " ") == dec {
 			return "diff=tilde-to-space"
 		}
-		sp := tk.vocab.SpecialVocabulary()
+		sp := tk.specials
 		x := text
 		n := 0
 		for _, id := range []int{105, 106} {
@@ -903,20 +948,67 @@ func verifByteLitAlign(text, dec string) bool {
 	return j == len(dec) && n > 0
 }
 
+type verifCall struct {
+	text string
+	add  bool
+}
+
+func verifLenBucket(n int) string {
+	switch {
+	case n == 0:
+		return "0"
+	case n < 16:
+		return "1_15"
+	case n < 256:
+		return "16_255"
+	case n < 4096:
+		return "256_4095"
+	case n < 65536:
+		return "4096_65535"
+	case n < 262144:
+		return "64k_256k"
+	default:
+		return "ge_256k"
+	}
+}
+
+// runHistory: ONE fresh tokenizer object, a sequence of Encode/Decode calls.  The model says every call is a
+// function of (vocabulary, text) only, so each call is compared with the single-call oracle (L1) and the
+// property predicates are evaluated per call (L2); a failure's case line is the history up to that call.
+func (tk *verifTok) runHistory(enc [256]int, calls []verifCall, out *zzverif.Out) {
+	if !tk.template {
+		panic("histories start from a template")
+	}
+	t := tk.clone(strings.HasPrefix(tk.name, "llama32"))
+	out.Count("histories")
+	out.Count(fmt.Sprintf("history_calls_%d", len(calls)))
+	line := tk.name
+	for _, c := range calls {
+		line += " " + verifB(c.add) + " " + zzverif.Hex([]byte(c.text))
+		t.runCall(tk, enc, c, line, out)
+	}
+}
+
 func (tk *verifTok) runCase(enc [256]int, segs []verifSeg, add bool, out *zzverif.Out) {
 	var text string
 	for _, s := range segs {
 		text += s.s
 	}
+	tk.runHistory(enc, []verifCall{{text, add}}, out)
+}
+
+// one call of a history on the tokenizer object tk (tmpl: its template, source of fresh reference objects)
+func (tk *verifTok) runCall(tmpl *verifTok, enc [256]int, c verifCall, cl string, out *zzverif.Out) {
+	text, add := c.text, c.add
 	out.Count("cases")
+	out.Count("text_len_" + verifLenBucket(len(text)))
 	if tk.pool != nil {
 		out.Count("cases_random_" + tk.family + "_vocabularies")
 	} else {
 		out.Count("cases_" + tk.name)
 	}
-	cl := tk.caseLine(text, add)
 
-	// ---- L1
+	// ---- the real code
 	ids, err := tk.tp.Encode(text, add)
 	impl := ""
 	if err != nil {
@@ -929,14 +1021,33 @@ func (tk *verifTok) runCase(enc [256]int, segs []verifSeg, add bool, out *zzveri
 		}
 		impl = fmt.Sprintf("ids=%s dec=%s", verifIds(ids), d)
 	}
-	var op string
-	if tk.family == "bpe" {
-		op = tk.opBPE(enc, text, add, out)
-	} else {
-		op = tk.opSPM(text, add, out)
-	}
-	out.Case(op, impl)
 	out.Add("tokens", len(ids))
+
+	// ---- L1 (skipped where the list-based Lean model is quadratic: very long pieces / SPM fragments)
+	l1 := true
+	if tk.family == "bpe" {
+		if len(text) > 4096 {
+			for p := range tk.bpe.split(text) {
+				if len(p) > 600 {
+					l1 = false
+					break
+				}
+			}
+		}
+	} else if len(text) > 6000 {
+		l1 = false
+	}
+	if l1 {
+		var op string
+		if tk.family == "bpe" {
+			op = tk.opBPE(enc, text, add, out)
+		} else {
+			op = tk.opSPM(text, add, out)
+		}
+		out.Case(op, impl)
+	} else {
+		out.Count("cases_l2_only_long_text")
+	}
 	if tk.byteIDs != nil {
 		seen := map[uint32]bool{}
 		for _, id := range ids {
@@ -954,7 +1065,10 @@ func (tk *verifTok) runCase(enc [256]int, segs []verifSeg, add bool, out *zzveri
 	if tk.family == "bpe" {
 		tk.checkPartition(text, cl, out)
 	}
-	ids0, err := tk.tp.Encode(text, false)
+	ids0 := ids
+	if add {
+		ids0, err = tk.tp.Encode(text, false)
+	}
 	if err != nil {
 		out.L2("encode-error", cl, err.Error())
 		return
@@ -974,44 +1088,31 @@ func (tk *verifTok) runCase(enc [256]int, segs []verifSeg, add bool, out *zzveri
 			out.L2("roundtrip-"+tk.family, cl, fmt.Sprintf("%s text=%q decoded=%q", tk.diffClass(text, dec), clipq(text), clipq(dec)))
 		}
 	}
-	// special literals: every constructed occurrence becomes the special id, the text between is encoded
-	// on its own (checked when the construction is unambiguous: no accidental extra occurrence)
+	// special literals (compositional, from the text alone): cut the text at the special literals (pristine
+	// special list of the template); every special piece must be the special id, every piece between must be
+	// encoded as it is on its own by a FRESH tokenizer object
+	frs := verifFragments(tk.specials, text)
 	nsp := 0
-	for _, s := range segs {
-		if s.special {
+	for _, f := range frs {
+		if f.sp {
 			nsp++
 		}
 	}
-	if nsp > 0 {
-		cnt := 0
-		for _, sp := range tk.vocab.SpecialVocabulary() {
-			cnt += strings.Count(text, sp)
+	if nsp > 0 && len(frs) <= 64 {
+		out.Count("l2_special_checked")
+		out.Count(fmt.Sprintf("l2_special_distinct_in_text_%d", min(nsp, 5)))
+		var want []int32
+		ref := tmpl.clone(strings.HasPrefix(tmpl.name, "llama32"))
+		for _, f := range frs {
+			if f.sp {
+				want = append(want, tmpl.vocab.Encode(f.v))
+			} else {
+				x, _ := ref.tp.Encode(f.v, false)
+				want = append(want, x...)
+			}
 		}
-		if cnt != nsp {
-			out.Count("l2_special_ambiguous_skipped")
-		} else {
-			out.Count("l2_special_checked")
-			var want []int32
-			plain := ""
-			flush := func() {
-				if plain != "" {
-					x, _ := tk.tp.Encode(plain, false)
-					want = append(want, x...)
-					plain = ""
-				}
-			}
-			for _, s := range segs {
-				if s.special {
-					flush()
-					want = append(want, tk.vocab.Encode(s.s))
-				} else {
-					plain += s.s
-				}
-			}
-			flush()
-			if verifIds(want) != verifIds(ids0) {
-				out.L2("special-literal", cl, fmt.Sprintf("ids=%s want=%s", verifIds(ids0), verifIds(want)))
-			}
+		if verifIds(want) != verifIds(ids0) {
+			out.L2("special-literal", cl, fmt.Sprintf("ids=%s want=%s", clipq(verifIds(ids0)), clipq(verifIds(want))))
 		}
 	}
 }
@@ -1020,11 +1121,11 @@ func (tk *verifTok) runCase(enc [256]int, segs []verifSeg, add bool, out *zzveri
 // bpe_roundtrip), here on the whole text; opBPE checks the same on every text fragment.
 func (tk *verifTok) checkPartition(text, cl string, out *zzverif.Out) {
 	out.Count("l2_split_partition_checked")
-	cat := ""
+	var sb strings.Builder
 	for p := range tk.bpe.split(text) {
-		cat += p
+		sb.WriteString(p)
 	}
-	if cat != text {
+	if cat := sb.String(); cat != text {
 		out.L2("split-partition", cl, fmt.Sprintf("pattern %q splits %q into pieces that concatenate to %q", tk.pre, clipq(text), clipq(cat)))
 	}
 }
@@ -1051,7 +1152,7 @@ var verifTricky = []string{"~", "~~", "a~b", "\u00ac", "\u00ae", "\u00ad", "\u00
 func verifGenSegs(r *zzverif.Rng, tk *verifTok, out *zzverif.Out) []verifSeg {
 	n := r.Pick3(1, 4, 9)
 	var segs []verifSeg
-	specials := tk.vocab.SpecialVocabulary()
+	specials := tk.specials
 	for i := 0; i < n; i++ {
 		var s string
 		k := r.Intn(22)
@@ -1199,24 +1300,33 @@ func TestVerifC20(t *testing.T) {
 		return byName[name]
 	}
 
+	// a case line is a history: <tokenizer> {<add 0|1> <texthex>}+ , run on a fresh tokenizer object
+	runLine := func(line string) bool {
+		f := strings.Fields(line)
+		if len(f) < 3 || len(f)%2 != 1 || lookup(f[0]) == nil {
+			return false
+		}
+		var calls []verifCall
+		for i := 1; i < len(f); i += 2 {
+			calls = append(calls, verifCall{string(zzverif.Unhex(f[i+1])), f[i] == "1"})
+		}
+		byName[f[0]].runHistory(enc, calls, out)
+		return true
+	}
 	if p := os.Getenv("VERIF_REPLAY"); p != "" {
 		raw, err := os.ReadFile(p)
 		if err != nil {
 			t.Fatal(err)
 		}
-		f := strings.Fields(string(raw))
-		if len(f) != 3 || lookup(f[0]) == nil {
-			t.Fatalf("bad replay line %q", raw)
+		if !runLine(string(raw)) {
+			t.Fatalf("bad replay line %q", clipq(string(raw)))
 		}
-		byName[f[0]].runCase(enc, []verifSeg{{string(zzverif.Unhex(f[2])), false}}, f[1] == "1", out)
 		return
 	}
 
 	for _, file := range verifCorpus() {
 		for _, line := range strings.Split(file, "\n") {
-			f := strings.Fields(line)
-			if len(f) == 3 && lookup(f[0]) != nil {
-				byName[f[0]].runCase(enc, []verifSeg{{string(zzverif.Unhex(f[2])), false}}, f[1] == "1", out)
+			if runLine(line) {
 				out.Count("corpus_cases")
 			}
 		}
@@ -1288,26 +1398,181 @@ func TestVerifC20(t *testing.T) {
 			out.Count("fixed_cases")
 		}
 	}
+	thorough := os.Getenv("VERIF_TIER") == "thorough"
+
+	// long texts (single lines around and beyond 64 KiB, multi-byte characters at every phase relative to
+	// 65536, with and without line breaks; > 1 MiB in the thorough tier): L2 always, L1 where pieces are short
+	var longToks []*verifTok
+	for _, name := range []string{"llama32", "synth", "spm"} {
+		longToks = append(longToks, byName[name])
+	}
+	for _, tk := range rtoks {
+		if tk.covering && len(longToks) < 5 {
+			longToks = append(longToks, tk)
+		}
+	}
+	for i, text := range verifLongTexts(thorough) {
+		for j, tk := range longToks {
+			if len(text) > 300000 && j > 0 && (i+j)%2 == 0 {
+				continue // the biggest ones on the real vocabulary and every other synthetic one
+			}
+			if tk.family == "spm" && len(text) > 300000 {
+				continue // the SPM queue holds one candidate per rune pair: minutes on a MiB of text
+			}
+			tk.runHistory(enc, []verifCall{{text, false}}, out)
+			out.Count("long_text_cases")
+		}
+	}
+
 	n := zzverif.EnvInt("VERIF_N", 2000)
 	// NewRng(seed) streams for consecutive seeds are one-step shifts of each other (SplitMix64 state =
 	// seed * increment): fork once so that different seeds give unrelated case sequences.
 	root := zzverif.NewRng(zzverif.Seed()).Fork()
-	for i := 0; i < n; i++ {
+	for done := 0; done < n; {
 		r := root.Fork()
 		tk := pick[r.Intn(len(pick))]
-		var segs []verifSeg
 		if r.Chance(5, 12) { // a random vocabulary
 			tk = rtoks[r.Intn(len(rtoks))]
-			out.Count("cases_random_vocab_" + tk.family)
-			if r.Chance(3, 4) {
+			out.Count("histories_random_vocab_" + tk.family)
+		}
+		// histories: 1 call (1/3) or 2-8 calls; the calls mention different subsets of the special literals
+		// (none, some, all, in varying order) so that anything remembered between calls shows
+		k := 1
+		if r.Chance(2, 3) {
+			k = r.Range(2, 8)
+		}
+		var calls []verifCall
+		for c := 0; c < k; c++ {
+			var segs []verifSeg
+			if tk.pool != nil && r.Chance(3, 4) {
 				segs = verifPoolSegs(r, tk, out)
+			} else {
+				segs = verifGenSegs(r, tk, out)
+			}
+			if k > 1 && len(tk.specials) > 0 {
+				var named []string
+				for _, sp := range tk.specials {
+					if strings.HasPrefix(sp, "<") && !strings.HasPrefix(sp, "<0x") {
+						named = append(named, sp)
+					}
+				}
+				switch m := r.Intn(4); {
+				case len(named) == 0 || m == 0: // none (beyond what the generator put in)
+					out.Count("call_specials_generator_only")
+				case m == 1: // all, shuffled
+					for _, i := range verifPerm(r, len(named)) {
+						segs = append(segs, verifSeg{named[i], true}, verifSeg{zzverif.Pick(r, []string{"", " ", "a", "\n"}), false})
+					}
+					out.Count("call_specials_all")
+				default: // some
+					for j := r.Range(1, 3); j > 0; j-- {
+						at := r.Intn(len(segs) + 1)
+						segs = append(segs[:at], append([]verifSeg{{zzverif.Pick(r, named), true}}, segs[at:]...)...)
+					}
+					out.Count("call_specials_some")
+				}
+			}
+			text := ""
+			for _, sg := range segs {
+				text += sg.s
+			}
+			if text != "" && r.Chance(1, 400) { // medium-length texts (4-60 KiB), pieces stay short: L1 as well
+				text = strings.Repeat(text+" ", 1+r.Range(4096, 60000)/(len(text)+1))
+				out.Count("call_medium_length_text")
+			}
+			calls = append(calls, verifCall{text, r.Chance(1, 4)})
+		}
+		tk.runHistory(enc, calls, out)
+		done += k
+	}
+
+	// concurrent calls on ONE tokenizer object (cheap, no race detector): every result must be the single-call
+	// result of a fresh object
+	cr := root.Fork()
+	for g := 0; g < 24; g++ {
+		tk := []*verifTok{byName["spm"], byName["synth"], byName["llama32"], rtoks[g%len(rtoks)]}[g%4]
+		var texts []string
+		for i := 0; i < 4; i++ {
+			segs := verifGenSegs(cr.Fork(), tk, out)
+			if len(tk.specials) > 0 && i%2 == 0 {
+				segs = append(segs, verifSeg{tk.specials[(g+i)%len(tk.specials)], true})
+			}
+			x := ""
+			for _, sg := range segs {
+				x += sg.s
+			}
+			texts = append(texts, x)
+		}
+		shared := tk.clone(strings.HasPrefix(tk.name, "llama32"))
+		got := make([][]string, len(texts))
+		var wg sync.WaitGroup
+		for i := range texts {
+			wg.Add(1)
+			go func(i int) {
+				defer wg.Done()
+				for rep := 0; rep < 25; rep++ {
+					ids, _ := shared.tp.Encode(texts[i], false)
+					got[i] = append(got[i], verifIds(ids))
+				}
+			}(i)
+		}
+		wg.Wait()
+		out.Count("concurrent_groups")
+		for i := range texts {
+			ref, _ := tk.clone(strings.HasPrefix(tk.name, "llama32")).tp.Encode(texts[i], false)
+			for _, x := range got[i] {
+				if x != verifIds(ref) {
+					line := tk.name
+					for _, y := range texts {
+						line += " 0 " + zzverif.Hex([]byte(y))
+					}
+					out.L2("concurrent-calls", line, fmt.Sprintf("text %d encoded concurrently with the others gives ids=%s, alone ids=%s", i, clipq(x), clipq(verifIds(ref))))
+					break
+				}
 			}
 		}
-		if segs == nil {
-			segs = verifGenSegs(r, tk, out)
-		}
-		tk.runCase(enc, segs, r.Chance(1, 4), out)
 	}
+}
+
+func verifPerm(r *zzverif.Rng, n int) []int {
+	p := make([]int, n)
+	for i := range p {
+		p[i] = i
+	}
+	for i := n - 1; i > 0; i-- {
+		j := r.Intn(i + 1)
+		p[i], p[j] = p[j], p[i]
+	}
+	return p
+}
+
+// verifLongTexts: every phase of a 2-, 3- and 4-byte character relative to byte offset 65536 (prefix of 0..k-1
+// ASCII bytes), as one line just over 64 KiB; the same with a line break earlier in the text (which moves a
+// window boundary), as short space-separated words (short pieces: the oracle handles them), 70 and 200 KiB;
+// thorough: beyond 1 MiB.
+func verifLongTexts(thorough bool) []string {
+	var out []string
+	rep := func(prefix, unit string, total int) string {
+		n := (total - len(prefix) + len(unit) - 1) / len(unit)
+		return prefix + strings.Repeat(unit, n)
+	}
+	for _, ch := range []string{"é", "你", "😀"} {
+		for p := 0; p < len(ch); p++ {
+			prefix := strings.Repeat("x", p)
+			out = append(out, rep(prefix, ch, 65536+8))
+			if ch == "你" {
+				out = append(out, rep(prefix, "你好吗 ", 65536+20))                         // short pieces
+				out = append(out, rep(prefix, ch, 30000)+"\n"+rep("", ch, 65536+3000)) // a line break before the cut
+			}
+		}
+	}
+	out = append(out, strings.Repeat("a", 65535)+"é", strings.Repeat("a", 65534)+"你a", strings.Repeat("a", 65536)+"é",
+		strings.Repeat("ab ", 21845)+"é", strings.Repeat("a", 65535)+"\né")
+	out = append(out, rep("x", "😀", 200<<10), rep("x", "é", 70<<10), rep("", "word é\n", 70<<10))
+	if thorough {
+		out = append(out, rep("x", "你", 1200<<10), rep("x", strings.Repeat("你", 17000)+"\n", 1200<<10), rep("xy", "😀 é ", 1100<<10))
+	}
+	return out
 }
 
 // corpus/C20/*.txt (minimised regression inputs), located through VERIF_CORPUS
